@@ -185,8 +185,32 @@ func adBytes(c string, r *rand.Rand) (sdk.Val, []byte) {
 
 var adTsMs = map[string]int64{"t0": 0, "t999": 999, "t1000": 1000, "t1001": 1001, "tnow": 1700000000123}
 
+// adPrepared: the concrete event of one abstract case, built once; adJudge evaluates one decoding of it.
+type adPrepared struct {
+	fields                 []sdk.Val
+	sender, nonce, payload []byte
+	chain, seq, cl         *big.Int
+	txId, rendered, hdrHash string
+}
+
 func adDecodeOne(c adCase, ts string, r *rand.Rand) (s map[string]interface{}) {
-	s = map[string]interface{}{}
+	p := adPrepare(c, r)
+	return p.decode(ts)
+}
+
+func (p *adPrepared) decode(ts string) (s map[string]interface{}) {
+	s = map[string]interface{}{"fields": p.rendered}
+	defer func() {
+		if x := recover(); x != nil {
+			s["out"] = "panic"
+			s["err"] = fmt.Sprint(x)
+		}
+	}()
+	msg, err := ToWormholeMessage(p.fields, p.txId)
+	return p.judge(ts, msg, err, s)
+}
+
+func adPrepare(c adCase, r *rand.Rand) *adPrepared {
 	vals := make([]sdk.Val, 6)
 	var sender, nonce, payload []byte
 	var chain, seq, cl *big.Int
@@ -205,14 +229,12 @@ func adDecodeOne(c adCase, ts string, r *rand.Rand) (s map[string]interface{}) {
 	}
 	txId := hex.EncodeToString(adRandBytes(r, 32))
 	rendered, _ := json.Marshal(fields)
-	s["fields"] = string(rendered)
-	defer func() {
-		if p := recover(); p != nil {
-			s["out"] = "panic"
-			s["err"] = fmt.Sprint(p)
-		}
-	}()
-	msg, err := ToWormholeMessage(fields, txId)
+	return &adPrepared{fields: fields, sender: sender, nonce: nonce, payload: payload, chain: chain, seq: seq, cl: cl,
+		txId: txId, rendered: string(rendered), hdrHash: hex.EncodeToString(adRandBytes(r, 32))}
+}
+
+func (p *adPrepared) judge(ts string, msg *WormholeMessage, err error, s map[string]interface{}) map[string]interface{} {
+	sender, nonce, payload, chain, seq, cl, txId := p.sender, p.nonce, p.payload, p.chain, p.seq, p.cl, p.txId
 	if err != nil {
 		s["out"] = "reject"
 		s["err"] = err.Error()
@@ -234,7 +256,7 @@ func adDecodeOne(c adCase, ts string, r *rand.Rand) (s map[string]interface{}) {
 	s["tx"] = msg.txId == txId
 	s["got"] = fmt.Sprintf("chain=%d seq=%d nonce=%d cl=%d payload=%dB", msg.targetChainId, msg.Sequence, msg.nonce, msg.consistencyLevel, len(msg.payload))
 	// toMessagePublication
-	hdr := &sdk.BlockHeaderEntry{Hash: hex.EncodeToString(adRandBytes(r, 32)), Timestamp: adTsMs[ts], Height: 7}
+	hdr := &sdk.BlockHeaderEntry{Hash: p.hdrHash, Timestamp: adTsMs[ts], Height: 7}
 	pub := msg.toMessagePublication(hdr)
 	same := pub.Nonce == msg.nonce && pub.Sequence == msg.Sequence && pub.ConsistencyLevel == msg.consistencyLevel &&
 		uint16(pub.TargetChain) == msg.targetChainId && bytes.Equal(pub.EmitterAddress[:], msg.senderId[:]) &&
@@ -425,38 +447,81 @@ func TestVerifAlphDecode(t *testing.T) {
 	// The node decodes events on two goroutines (the event poller and the re-observation handler): the same cases
 	// again, several goroutines at once, each with its own slice of the cases.  Decoding is a function of the event,
 	// so every line is judged by the specification exactly like a sequential one.
-	workers := 8
-	budget := 1500 * time.Millisecond
+	workers := 32
+	budget := 2500 * time.Millisecond
 	if inp.Reps > 1 {
 		budget = 8 * time.Second // thorough tier
 	}
 	var wg sync.WaitGroup
-	var emitted int64
+	var emitted, total int64
 	deadline := time.Now().Add(budget)
 	for w := 0; w < workers; w++ {
 		wg.Add(1)
 		go func(w int) {
 			defer wg.Done()
 			rw := rand.New(rand.NewSource(seed*104729 + int64(w)))
-			seen := map[string]bool{} // one line per distinct (case, time, outcome): repeats add nothing for TLC
+			var iters int64
+			defer func() { atomic.AddInt64(&total, iters) }()
+			// the events are built once; the hot loop only decodes and compares with the first outcome of the same event
+			// (decoding is a function of the event), so the goroutines spend their time inside the code under test
+			type prep struct {
+				p     *adPrepared
+				c     adCase
+				first string
+			}
+			var mine []prep
+			for i, c := range inp.Cases {
+				if i%workers == w {
+					mine = append(mine, prep{p: adPrepare(c, rw), c: c})
+				}
+			}
+			fp := func(msg *WormholeMessage, err error) string {
+				if err != nil {
+					return "reject"
+				}
+				return fmt.Sprintf("ok|%x|%d|%d|%d|%d|%x", msg.senderId, msg.targetChainId, msg.Sequence, msg.nonce, msg.consistencyLevel, msg.payload)
+			}
 			for round := 0; round < 3 || time.Now().Before(deadline); round++ {
-				for i, c := range inp.Cases {
-					if i%workers != w {
+				for k := range mine {
+					iters++
+					m := &mine[k]
+					ts := inp.Ts[(k+round)%len(inp.Ts)]
+					var msg *WormholeMessage
+					var err error
+					pan := ""
+					func() {
+						defer func() {
+							if x := recover(); x != nil {
+								pan = fmt.Sprint(x)
+							}
+						}()
+						msg, err = ToWormholeMessage(m.p.fields, m.p.txId)
+					}()
+					f := "panic|" + pan
+					if pan == "" {
+						f = fp(msg, err)
+					}
+					if m.first != "" && f == m.first {
 						continue
 					}
-					ts := inp.Ts[(i+round)%len(inp.Ts)]
-					s := adDecodeOne(c, ts, rw)
-					key, _ := json.Marshal([]interface{}{c.N, c.F, ts, s})
-					if seen[string(key)] || atomic.LoadInt64(&emitted) > 4000 {
+					if m.first == "" {
+						m.first = f
+					}
+					if atomic.AddInt64(&emitted, 1) > 4000 {
 						continue
 					}
-					seen[string(key)] = true
-					atomic.AddInt64(&emitted, 1)
-					tr.Emit(1, "Decode", map[string]interface{}{"n": c.N, "f": c.F, "ts": ts, "mode": "concurrent"}, s)
+					s := map[string]interface{}{"fields": m.p.rendered}
+					if pan != "" {
+						s["out"], s["err"] = "panic", pan
+					} else {
+						s = m.p.judge(ts, msg, err, s)
+					}
+					tr.Emit(1, "Decode", map[string]interface{}{"n": m.c.N, "f": m.c.F, "ts": ts, "mode": "concurrent"}, s)
 				}
 			}
 		}(w)
 	}
 	wg.Wait()
+	fmt.Println("VERIF-CONCURRENT-DECODES", total)
 	fmt.Println("VERIF-DECODED", k)
 }
